@@ -91,12 +91,20 @@ type System struct {
 	Consts   map[string]string // CONSTANT assignments for the cfg (model values: name = name)
 	Rewrite  func(spec string) string // optional scratch-copy rewrite (e.g. CHOOSE -> existential), listed in evidence
 	Extra    string            // extra definitions appended to the trace module
+	// Retranslate: the shipped TLA+ translation is stale with respect to the file's own PlusCal
+	// algorithm (the block PGo generated together with the Go code): run the PlusCal translator
+	// (pcal, tla2tools) on the scratch copy first, so Next is the translation of that algorithm
+	Retranslate bool
 }
 
 type Verdict struct {
 	TraceIdx int
 	Step     int // index of the offending state in the trace (transition Step-1 -> Step), 0 = initial state
 	Output   string
+	// EvalError: TLC could not evaluate the spec's Next on this recorded pair (e.g. a function
+	// applied outside its domain with the recorded successor's values): no step of the spec
+	// produces that successor from a state the spec had accepted so far
+	EvalError bool
 }
 
 var reTI = regexp.MustCompile(`/\\ ti = (\d+)`)
@@ -121,6 +129,13 @@ func Check(sys System, traces []Trace, workDir string) (*Verdict, string, error)
 	}
 	if err := os.WriteFile(filepath.Join(workDir, sys.Name+".tla"), []byte(text), 0o644); err != nil {
 		return nil, "", err
+	}
+	if sys.Retranslate {
+		pc := exec.Command("java", "-XX:+UseSerialGC", "-XX:TieredStopAtLevel=1", "-cp", "/opt/veriftools/tla/tla2tools.jar", "pcal.trans", "-nocfg", sys.Name+".tla")
+		pc.Dir = workDir
+		if o, err := pc.CombinedOutput(); err != nil || !strings.Contains(string(o), "Translation completed") {
+			return nil, string(o), fmt.Errorf("pcal translation of %s failed: %v", sys.Name, err)
+		}
 	}
 	mod := sys.Name + "_trace"
 	var b strings.Builder
@@ -201,6 +216,18 @@ func Check(sys System, traces []Trace, workDir string) (*Verdict, string, error)
 	}
 	if strings.Contains(o, "Model checking completed. No error has been found") {
 		return nil, o, nil
+	}
+	if strings.Contains(o, "The error occurred when TLC was evaluating the nested") && strings.Contains(o, "The behavior up to this point is") {
+		// evaluation of ok' = Next failed while computing the successor of the last printed state
+		tis := reTI.FindAllStringSubmatch(o, -1)
+		trs := reTR.FindAllStringSubmatch(o, -1)
+		if len(tis) > 0 && len(trs) > 0 {
+			ti, _ := strconv.Atoi(tis[len(tis)-1][1])
+			tr, _ := strconv.Atoi(trs[len(trs)-1][1])
+			if tr >= 1 && tr <= len(traces) && ti >= 1 && ti < len(traces[tr-1].States) {
+				return &Verdict{TraceIdx: tr - 1, Step: ti, Output: o, EvalError: true}, o, nil
+			}
+		}
 	}
 	return nil, o, fmt.Errorf("TLC did not complete (%v)", runErr)
 }
